@@ -44,6 +44,9 @@ class Check(PropertyCheck):
             if _i % 15 == 6:
                 yield slices.stale_ready_scenario(rng)
                 continue
+            if _i % 15 == 3:
+                yield Scenario(["new", f"mark customfilter {rng.randint(0, 10**6)}"], {"family": "custom_filter", "accepted": 3, "style": "custom_filter"})
+                continue
             if _i % 15 == 10:
                 yield Scenario(["new", f"mark raiser {rng.randint(0, 10**6)}"], {"family": "raiser", "accepted": 3, "style": "raiser"})
                 continue
@@ -55,9 +58,12 @@ class Check(PropertyCheck):
         res = []
         if line.startswith("mark raiser"):
             return oracles.raiser_episode(int(line.split()[2]))["C02"]
+        if line.startswith("mark customfilter"):
+            return oracles.custom_filter_episode(int(line.split()[2]))["C02"]
         d = impl.dispatcher
         if line.startswith("inst"):
             ctx["hobs"] = None
+            ctx["kept"] = None
         setup = ("new", "inst", "filter", "fobs", "fres")
         nxt = scenario.lines[index + 1] if index + 1 < len(scenario.lines) else ""
         if ctx.get("hobs") is None and d is not None and getattr(d, "instance", None) is not None and \
@@ -67,6 +73,16 @@ class Check(PropertyCheck):
             ctx["hobs"] = jsl.HistoryObserver(d)
             ctx["held"] = ctx["hobs"].history
             ctx["held_copy"] = list(ctx["held"])
+        if ctx.get("kept") is not None and index == len(scenario.lines) - 1:
+            # the history a caller KEPT from an earlier episode (the list object and its entries) still says what happened then
+            kept, copy_ = ctx["kept"]
+            now_ = [(x.operation.operation_id, x.machine_id, x.start_time) for x in kept]
+            if now_ != copy_:
+                res.append(("recorded-history-destroyed", f"the history kept from an earlier episode changed while later episodes ran: was "
+                            f"{copy_}, is now {now_}"))
+        if line == "reset" and ctx.get("hobs") is not None and ctx.get("kept") is None and len(ctx.get("held") or []) >= 2:
+            kept_list = list(ctx["held"])           # the caller's own list of the entries recorded before this reset
+            ctx["kept"] = (kept_list, [(x.operation.operation_id, x.machine_id, x.start_time) for x in kept_list])
         if line == "reset" and ctx.get("hobs") is not None:
             # the list a caller took from the observer before the reset is still the recorded history
             if [(x.operation.operation_id, x.machine_id) for x in ctx["held"]] != \
